@@ -229,7 +229,7 @@ mod verif_cex {
 
     #[test]
     fn cex_T3() {
-        let tokens: [&str; 22] = [
+        let tokens: [&str; 25] = [
             "<block>",
             "<block a=\"1\">",
             "</block>",
@@ -253,6 +253,10 @@ mod verif_cex {
             "</block",
             "<block a=\"1\" a='2'>",
             "<block n\u{e4}me=\u{3b2}_1 >",
+            // look-alikes of the END tag: `block` must be followed by optional blanks and `>` only
+            "</blockquote>",
+            "</blocks>",
+            "</block x>",
         ];
         let mut cases = 0u64;
         let mut text = String::new();
@@ -269,7 +273,7 @@ mod verif_cex {
                 check(&text, &mut cases);
             }
         }
-        // every sequence of <= 3 tokens over all 22 tokens
+        // every sequence of <= 3 tokens over all 25 tokens
         for len in 1..=3u32 {
             for code in 0..tokens.len().pow(len) {
                 text.clear();
